@@ -158,6 +158,11 @@ def check_molecule(case, rec):
     rec.nt(str(m))
     for n, a in m.atoms():
         ref = valence_ref.implicit_h(a, valence_ref.atom_neighbours(m, n))
+        if a.implicit_hydrogens != ref and spec['k'] != 'graph' and \
+                a.implicit_hydrogens in valence_ref.implicit_h_all(a, valence_ref.atom_neighbours(m, n)):
+            # text input: a bracket atom may select another valid state of the tables (e.g. elemental [13C])
+            rec.count('text-selected-alternative-state')
+            continue
         if a.implicit_hydrogens != ref:
             nb = sorted(valence_ref.atom_neighbours(m, n))
             rec.fail('rederivation', f'{str(m)!r} atom {n} ({a.atomic_symbol} charge {a.charge} radical {a.is_radical} '
